@@ -93,11 +93,19 @@ func PrepareC01(ctx *Ctx) (*Prepared, error) {
 }
 
 func PrepareC02(ctx *Ctx) (*Prepared, error) {
-	return prepareCodec(ctx, codecSpec{harnesses: []string{"VH_C02"}})
+	p, err := prepareCodec(ctx, codecSpec{harnesses: []string{"VH_C02"}})
+	if p != nil {
+		p.AllRuns = true
+	}
+	return p, err
 }
 
 func PrepareC03(ctx *Ctx) (*Prepared, error) {
-	return prepareCodec(ctx, codecSpec{harnesses: []string{"VH_C03"}})
+	p, err := prepareCodec(ctx, codecSpec{harnesses: []string{"VH_C03"}})
+	if p != nil {
+		p.AllRuns = true
+	}
+	return p, err
 }
 
 func PrepareC05(ctx *Ctx) (*Prepared, error) {
@@ -120,7 +128,11 @@ func PrepareC07(ctx *Ctx) (*Prepared, error) {
 }
 
 func PrepareC08(ctx *Ctx) (*Prepared, error) {
-	return prepareCodec(ctx, codecSpec{profile: "lite", harnesses: []string{"VH_C08W", "VH_C08R"}})
+	p, err := prepareCodec(ctx, codecSpec{profile: "lite", harnesses: []string{"VH_C08W", "VH_C08R"}})
+	if p != nil {
+		p.AllRuns = true
+	}
+	return p, err
 }
 
 // optionSets enumerates generator option combinations: quick = base, each
@@ -152,6 +164,7 @@ func PrepareC09(ctx *Ctx) (*Prepared, error) {
 			return !p.Deep && (p.Context == "struct" || p.Context == "message" || p.Leaf == "int32" || p.Leaf == "Msg")
 		}})
 	if p != nil {
+		p.AllRuns = true
 		p.Bounds["option_sets"] = len(optionSets(ctx.Tier))
 		p.Bounds["options"] = "GenerateUnsafeMethods, SharedMemoryStrings, GenerateFieldTags, PrivateDefinitions, AlwaysUsePointerReceivers"
 	}
